@@ -17,7 +17,8 @@ RULE = ("bodies = (a) every id value of a 21-value table (absent, null, '', 0, -
         "member matrix slice; x server version {1.0,2.0} x dispatch {default, custom function, instance _dispatch}. "
         "distinct = distinct (configuration, body); non-trivial = the reference dispatcher aligned the output with the "
         "entries and compared ids / count / order.")
-ASSUMPTIONS = ["payloads are free of __jsonclass__ (ids are plain JSON values)",
+ASSUMPTIONS = ["payloads are free of __jsonclass__ (ids are plain JSON values), except in the directed part on ids holding a class "
+               "descriptor, where only the one-to-one clause and the neighbours' ids are judged",
                "an id is 'usable' when the entry is an object holding an 'id' member; otherwise null is expected"]
 TECHNIQUE = "reference dispatcher aligned entry-by-entry with the real dispatcher output (runtime monitoring)"
 LEVEL_TEXT = ("The real dispatcher answers every generated single request and batch; an independent ~100-line reference "
@@ -109,6 +110,8 @@ def run(ctx):
         one(ctx, fxs, cfg, json.dumps(batch), "all-notifications")
     if ctx.shard == 0:
         deep_ids(ctx, fxs)
+    if ctx.shard == 1 % ctx.nshards:
+        descriptor_ids(ctx, fxs)
     # (c) matrix slice
     size = reqgen.matrix_size()
     step = ctx.pick(11, 5)
@@ -146,6 +149,57 @@ def deep_ids(ctx, fxs):
                 if not ok:
                     ctx.violate("count:deep-structured-id-collapses-the-batch", case,
                                 {"raised": obs.raised, "output_head": (obs.output or "")[:200]})
+
+
+DESCRIPTOR_IDS = [{"__jsonclass__": ["decimal.Decimal", ["7"]]}, {"__jsonclass__": ["fractions.Fraction", [1, 3]]},
+                  {"__jsonclass__": ["types.SimpleNamespace", {"a": 1}]}, {"__jsonclass__": ["builtins.set", [[1, 2]]]},
+                  [{"__jsonclass__": ["decimal.Decimal", ["1.5"]]}], {"k": {"__jsonclass__": ["datetime.date", [2020, 1, 2]]}}]
+
+
+def descriptor_ids(ctx, fxs):
+    """An id that is (or holds) a class descriptor, with translation enabled: the translator turns it into an object that
+    may not be writable as JSON.  The statement's "same JSON value ... or null when that entry had no usable id" leaves
+    both answers open for THAT entry (its id: the descriptor as sent, or null); what is judged is the one-to-one clause:
+    one response object per non-notification entry, in order, the neighbours keeping their own ids."""
+    for did in DESCRIPTOR_IDS:
+        for m in ("echo", "fail", "nosuch"):
+            for two in (True, False):
+                e = {"method": m, "params": [1], "id": did}
+                if two:
+                    e["jsonrpc"] = "2.0"
+                n1 = {"jsonrpc": "2.0", "method": "echo", "params": [1], "id": 41}
+                n2 = {"method": "echo", "params": [2], "id": "n2"}
+                for cfg in CONFIGS:
+                    if cfg[1] != "default":
+                        continue
+                    fx = fxs[cfg]
+                    for label, batch, pos in (("single", e, None), ("first", [e, n1, n2], 0), ("middle", [n1, e, n2], 1),
+                                              ("last", [n1, n2, e], 2)):
+                        body = json.dumps(batch)
+                        case = {"config": list(cfg), "bclass": "descriptor-id", "body": body, "position": label}
+                        ctx.case(("descriptor-id", cfg, body), nontrivial=True)
+                        ctx.count("judged:descriptor-ids")
+                        obs = dm.drive(fx, body)
+                        if obs.raised is not None:
+                            continue  # C02's concern
+                        val = obs.parsed
+                        if pos is None:
+                            objs = [val] if isinstance(val, dict) else None
+                        else:
+                            objs = val if isinstance(val, list) else None
+                        want = 1 if pos is None else 3
+                        if objs is None or len(objs) != want or not all(isinstance(o, dict) for o in objs):
+                            ctx.violate("count:id-holding-a-class-descriptor-collapses-the-%s"
+                                        % ("reply" if pos is None else "batch"), case, {"output": (obs.output or "")[:400]})
+                            continue
+                        own = objs[0] if pos is None else objs[pos]
+                        if own.get("id") is not None and not gen.teq(own.get("id"), did):
+                            ctx.violate("id:class-descriptor-id-answered-with-another-id", case, {"response": own})
+                        if pos is not None:
+                            rest = [o.get("id") for i, o in enumerate(objs) if i != pos]
+                            if not gen.teq(rest, [41, "n2"]):
+                                ctx.violate("id:neighbours-of-a-class-descriptor-id-lose-their-ids", case,
+                                            {"ids": [o.get("id") for o in objs]})
 
 
 def finalize(m, tier):
